@@ -215,7 +215,7 @@ func (c *Converter) fromSingleFile(name string) ([]byte, error) {
 		return nil, fmt.Errorf("converting: %w", err)
 	}
 
-	return res, err
+	return res, nil
 }
 
 // fromReader converts b using the first filter which matches fn.
